@@ -1,6 +1,10 @@
 package main
 
 import (
+	"sort"
+	"unicode/utf16"
+
+	"github.com/gotd/td/telegram/message/styling"
 	"math/rand"
 
 	"github.com/gotd/td/telegram/message/entity"
@@ -31,5 +35,108 @@ func init() {
 			out = append(out, tr.M{"off": e.GetOffset(), "len": e.GetLength()})
 		}
 		return tr.M{"out": out}
+	}
+}
+
+var astrals = []rune{0x1F600, 0x1F4A9, 0x1F680, 0x10348, 0x1D11E}
+
+func runeClass(cl string, rng *rand.Rand) string {
+	switch cl {
+	case "a":
+		return string(rune('a' + rng.Intn(26)))
+	case "e1":
+		return string([]rune{0xe9, 0xdf, 0x416}[rng.Intn(3)])
+	case "cjk":
+		return string([]rune{0x6f22, 0x3042, 0xac00}[rng.Intn(3)])
+	case "astral":
+		return string(astrals[rng.Intn(len(astrals))])
+	case "comb":
+		return "é"
+	case "sp":
+		return " "
+	case "nbsp":
+		return " "
+	case "nl":
+		return "\n"
+	case "emsp":
+		return " "
+	case "zwj":
+		return "\U0001F468‍\U0001F469"
+	}
+	panic("bad rune class " + cl)
+}
+
+func init() {
+	modules["entitybuild"] = func(c tr.M, rng *rand.Rand) tr.M {
+		in := tr.Map(c["in"])
+		b := &entity.Builder{}
+		useStyling := rng.Intn(2) == 0
+		var opts []styling.StyledTextOption
+		for _, p := range tr.List(in["pieces"]) {
+			m := tr.Map(p)
+			s := ""
+			for _, cl := range tr.List(m["text"]) {
+				s += runeClass(tr.Str(cl), rng)
+			}
+			text := s
+			switch tr.Str(m["fmt"]) {
+			case "plain":
+				if useStyling {
+					opts = append(opts, styling.Plain(text))
+				} else {
+					b.Plain(text)
+				}
+			case "bold":
+				if useStyling {
+					opts = append(opts, styling.Bold(text))
+				} else {
+					b.Bold(text)
+				}
+			case "italic":
+				if useStyling {
+					opts = append(opts, styling.Italic(text))
+				} else {
+					b.Italic(text)
+				}
+			case "bi":
+				if useStyling {
+					opts = append(opts, styling.Custom(func(eb *entity.Builder) error { eb.Format(text, entity.Bold(), entity.Italic()); return nil }))
+				} else {
+					b.Format(text, entity.Bold(), entity.Italic())
+				}
+			}
+		}
+		if useStyling {
+			if err := styling.Perform(b, opts...); err != nil {
+				return tr.M{"err": err.Error()}
+			}
+		}
+		msg, ents := b.Complete()
+		type e3 struct {
+			t        string
+			off, len int
+		}
+		var es []e3
+		for _, e := range ents {
+			t := "other"
+			switch e.(type) {
+			case *tg.MessageEntityBold:
+				t = "bold"
+			case *tg.MessageEntityItalic:
+				t = "italic"
+			}
+			es = append(es, e3{t, e.GetOffset(), e.GetLength()})
+		}
+		sort.Slice(es, func(i, j int) bool {
+			if es[i].off != es[j].off {
+				return es[i].off < es[j].off
+			}
+			return es[i].t < es[j].t
+		})
+		out := make([]any, 0, len(es))
+		for _, e := range es {
+			out = append(out, tr.M{"type": e.t, "off": e.off, "len": e.len})
+		}
+		return tr.M{"entities": out, "units": len(utf16.Encode([]rune(msg)))}
 	}
 }
